@@ -585,3 +585,34 @@ Proof.
   destruct (style_only_allowed toks) as [ps [R [G P]]].
   exists ps. split; [congruence|]. split; assumption.
 Qed.
+
+
+(** the computable form of H-tok for style values implies the hypothesis of html_style_clause *)
+Lemma style_vals_In : forall items v, In v (style_vals_of_items items) ->
+  exists key val toks, In (Attr key val toks) (item_attrs items) /\ is_style key = true /\ v = sanitize_style toks.
+Proof.
+  induction items as [|it items IH]; intros v I; [contradiction|].
+  unfold style_vals_of_items in I. cbn [flat_map] in I. apply in_app_or in I as [I|I].
+  - destruct it as [b|n attrs sc]; [contradiction|].
+    apply in_flat_map in I as [[k val toks] [Ia I]]. unfold is_style.
+    destruct (str_eqb (go_lower k) style_key) eqn:E; [|contradiction]. destruct I as [<-|[]].
+    exists k, val, toks. split; [cbn [item_attrs]; apply in_or_app; left; exact Ia|]. split; [exact E|reflexivity].
+  - destruct (IH v I) as [k [val [toks [Ia R]]]]. exists k, val, toks. split; [|exact R].
+    destruct it; cbn [item_attrs]; [exact Ia|apply in_or_app; right; exact Ia].
+Qed.
+
+Lemma h_tok_style_check_sound : forall items toks2, h_tok_style_check items toks2 = true -> H_tok_style items toks2.
+Proof.
+  intros items toks2 H t a It Ia K. unfold h_tok_style_check in H. rewrite forallb_forall in H.
+  specialize (H t It). rewrite forallb_forall in H. specialize (H a Ia).
+  rewrite K, str_eqb_rf in H. cbn [negb orb] in H. apply mem_str_In in H.
+  exact (style_vals_In items (a_val a) H).
+Qed.
+
+(** the style clause with the hypothesis in its checked, computable form *)
+Theorem html_style_clause_checked : forall items toks2, h_tok_style_check items toks2 = true ->
+  forall n attrs v,
+    In (OStart n attrs) (bm_tokens toks2) \/ In (OSelf n attrs) (bm_tokens toks2) ->
+    In (s_style, v) attrs ->
+    exists ps, v = render ps /\ groups_ok false ps = true /\ (forall p, In (PProp p) ps -> allowed p = true).
+Proof. intros items toks2 H. apply (html_style_clause items toks2). apply h_tok_style_check_sound. exact H. Qed.
